@@ -477,6 +477,20 @@ def check_estimate(fx, R, cname, f, tag, v9=None):
            facts=[(bool(generic_t) and {tb.get('$A'), tb.get('$B')} <= {'sourceMean', 'targetMean'} and (tb.get('$A'), tb.get('$B')) != ('targetMean', 'sourceMean'),
                    'translation column is %s - R*%s: the centroid map is targetMean - R*sourceMean (this is the translation of another motion)' % (tb.get('$A'), tb.get('$B'))),
                   (not tr and not any(contains(e[1], ('.block', H, 0, 'CARTESIAN_DIM')) or contains(e[1], '.translation') for e in ev[ri + 1:]), 'no statement after the rotation store writes the translation column')])
+    # every accumulation loop visits every correspondence / point of the quantifier's sizes (3..500): the loop control is stepped on witness sizes
+    from .C20 import loop_coverage
+    cont_ = 'correspondences' if tag == 'indexed' else 'sourcePoints'
+    sampled = False
+    for L_ in [x for x in (f['body'].get('s') or []) if x.get('k') == 'For']:
+        cov = loop_coverage(f, L_, cont=cont_, sizes=(3, 4, 7, 100, 255, 256, 257, 400, 500))
+        if cov[0] == 'violated':
+            sampled = True
+            R.violated('V2', inst + ':loop-coverage', 'for %d %s the accumulation loop `for (%s; %s; %s)` visits the positions %s: %d of the %d never reach the means / the covariance, so the motion returned is not the '
+                       'least-squares optimum over ALL correspondences (it disagrees with an independent Kabsch/Umeyama solution on noisy data, depends on their order and differs between the overloads); sets of '
+                       '3..500 points are inside the quantifier' % (cov[1], 'correspondences' if tag == 'indexed' else 'points', cov[2], cov[3], cov[4], cov[5], cov[6], cov[1]), fx.rel(L_['loc']), 'E-STEP')
+            break
+    if sampled:
+        return
     # means
     loops = loop_map(f)
     if tag == 'indexed':
